@@ -19,11 +19,12 @@ func init() {
 			ruleP3(c)
 			ruleP4(c)
 			ruleP5(c)
+			ruleB4(c) // a pre-installed plugin that fails to synchronize is skipped without affecting the others
 			ruleP6(c)
 			ruleP6b(c)
 			ruleO1(c)
 		},
-		explanation: "Decides the launch structure for pre-installed plugins: an entry of the plugin directory is only added to the discovery result after it was found not to be a directory, to have an execute bit, and to parse as idx-name (the three result lists grow together, from that parse); the child's environment is a fresh list of exactly three NAME=value strings whose names are the constants the stub reads with os.Getenv, carrying the plugin's base name, its index and the descriptor number 3, and the child gets exactly one extra file, the peer end of the socket pair, which is what descriptor 3 is; the socket pair is created close-on-exec on every build variant; the drop-in configuration candidates are idx-name.conf then name.conf, first readable wins and a read error other than not-exist is returned; a plugin that fails to launch, start or synchronize is skipped with continue (and stopped) without affecting the others, and the list is sorted by index; stop kills and reaps the process, and every plugin dropped from the list is stopped. stopPlugins stops every plugin of the list unconditionally.",
+		explanation: "Decides the launch structure for pre-installed plugins: an entry of the plugin directory is only added to the discovery result after it was found not to be a directory, to have an execute bit, and to parse as idx-name (the three result lists grow together, from that parse); the child's environment is a fresh list of exactly three NAME=value strings whose names are the constants the stub reads with os.Getenv, carrying the plugin's base name, its index and the descriptor number 3, and the child gets exactly one extra file, the peer end of the socket pair, which is what descriptor 3 is; the socket pair is created close-on-exec on every build variant; the drop-in configuration candidates are idx-name.conf then name.conf, first readable wins and a read error other than not-exist is returned; a plugin that fails to launch, start or synchronize is skipped with continue (and stopped) without affecting the others, and the list is sorted by index; stop kills and reaps the process, and every plugin dropped from the list is stopped. stopPlugins stops every plugin of the list unconditionally. The start-up sync callback never reports a single plugin's error; entries that are not launched anyway are filtered before their names are parsed.",
 		notDecided: []string{
 			"what the kernel and os/exec do with descriptors",
 			"the process table (that Kill/Wait succeed)",
@@ -91,6 +92,34 @@ func ruleP1(c *Ctx) {
 	c.ok("P1", "not-dir", appends[0].Pos(), isDirOK, "subdirectories are not launched", "the append is not dominated by the !IsDir() branch")
 	c.ok("P1", "executable", appends[0].Pos(), execOK, "files without an execute bit are not launched", "the append is not dominated by the has-execute-bit branch (mode & 0o111 != 0)")
 	c.ok("P1", "parsed", appends[0].Pos(), guardedBy(pcall, blk), "only names that parse as idx-name are launched", "the append is not dominated by ParsePluginName succeeding")
+	// only candidates are parsed: a failing parse ends the whole discovery, so an entry that is skipped anyway
+	// (a subdirectory, a file without an execute bit) must be skipped before its name is looked at
+	dirFirst, execFirst := false, false
+	for _, cd := range controls(pcall.Block()) {
+		cd = normCond(cd)
+		if call, ok := cd.V.(*ssa.Call); ok && call.Call.IsInvoke() && call.Call.Method.Name() == "IsDir" && !cd.Pol {
+			dirFirst = true
+		}
+		if bo, ok := cd.V.(*ssa.BinOp); ok && (bo.Op == token.EQL || bo.Op == token.NEQ) {
+			if z, ok := constInt(bo.Y); ok && z == 0 {
+				if an, ok := bo.X.(*ssa.BinOp); ok && an.Op == token.AND {
+					if k, ok := constInt(an.Y); ok && k&0o111 != 0 && k&^0o111 == 0 && ((bo.Op == token.EQL && !cd.Pol) || (bo.Op == token.NEQ && cd.Pol)) {
+						execFirst = true
+					}
+				}
+			}
+		}
+	}
+	fatalParse := false
+	for _, fb := range errFailBlocks(pcall) {
+		for _, r := range returnsOf(f) {
+			if fb.Dominates(r.Block()) {
+				fatalParse = true
+			}
+		}
+	}
+	c.ok("P1", "filter-before-parse", pcall.Pos(), !fatalParse || (dirFirst && execFirst), "entries that are not launched anyway are skipped before their names are parsed",
+		"ParsePluginName runs (and its failure ends the discovery with an error) before the entry was found to be a candidate: one stray non-executable file or subdirectory whose name is not NN-name keeps every plugin from being launched")
 	// provenance of the appended elements
 	var fromIdx, fromBase, fromCfg bool
 	mf := &mergeFn{m: m}
